@@ -391,6 +391,13 @@ inductive Pre
   | go (name decoded contentPath : String) (isDir : Bool) (ign : (String × Bool) × IgnoreVal) (childMask : Bool)
   deriving Repr
 
+/-- scan.go:458-463: the ignore behaviour of a path, from the old ignore cache
+if it is there, else from the ignorer. -/
+def ignoreBehavior (cfg : Cfg) (acc : Accel) (key : String × Bool) : IgnoreVal :=
+  match alookup key acc.ignoreCache with
+  | some v => v
+  | none => cfg.ignorer key.1 key.2
+
 def preDispatch (cfg : Cfg) (acc : Accel) (pfx : String) (mask : Bool) (rawName : Bytes) (node : Node) : Pre :=
   if hasTemporaryPrefix rawName then .skip else
   match cfg.utf8 rawName with
@@ -405,10 +412,7 @@ def preDispatch (cfg : Cfg) (acc : Accel) (pfx : String) (mask : Bool) (rawName 
     | _ =>
       let isDir := match node with | .dir _ _ => true | _ => false
       let key := (contentPath, isDir)
-      let behavior :=
-        match alookup key acc.ignoreCache with
-        | some v => v
-        | none => cfg.ignorer contentPath isDir
+      let behavior := ignoreBehavior cfg acc key
       match ignoreDecision behavior mask with
       | .untracked => .put name untracked (some (key, behavior))
       | .proceed childMask => .go name decoded contentPath isDir (key, behavior) childMask
